@@ -20,7 +20,7 @@ use std::sync::{Arc, Mutex};
 // ------------------------------------------------------------------------------------------------
 
 macro_rules! rtab {
-    ($name:ident, $msg:ty, $internal:path) => {
+    ($name:ident, $msg:ty, $internal:path, $code:path) => {
         #[derive(Clone, Debug, Default)]
         pub struct $name(pub Tab);
         impl Actor for $name {
@@ -35,10 +35,8 @@ macro_rules! rtab {
                 s
             }
             fn on_msg(&self, id: Id, state: &mut Cow<u8>, src: Id, msg: Self::Msg, o: &mut Out<Self>) {
-                let m = match msg {
-                    $internal(m) => m,
-                    _ => 200,
-                };
+                // Internal(m) is the Tab message m; the register protocol's own messages are the Tab messages 201..205
+                let m = $code(&msg);
                 let mut oi = Out::<Tab>::new();
                 self.0.on_msg(id, state, src, m, &mut oi);
                 relay(oi, o, $internal);
@@ -76,8 +74,47 @@ fn relay<A: Actor<Timer = u8, Random = u8>>(oi: Out<Tab>, o: &mut Out<A>, wrap: 
 
 type RMsg = register::RegisterMsg<u64, char, u8>;
 type WMsg = write_once_register::WORegisterMsg<u64, char, u8>;
-rtab!(RTab, RMsg, register::RegisterMsg::Internal);
-rtab!(WTab, WMsg, write_once_register::WORegisterMsg::Internal);
+rtab!(RTab, RMsg, register::RegisterMsg::Internal, rcode);
+rtab!(WTab, WMsg, write_once_register::WORegisterMsg::Internal, wcode);
+
+fn rcode(m: &RMsg) -> u8 {
+    match m {
+        register::RegisterMsg::Internal(x) => *x,
+        register::RegisterMsg::Put(..) => 201,
+        register::RegisterMsg::Get(..) => 202,
+        register::RegisterMsg::PutOk(..) => 203,
+        register::RegisterMsg::GetOk(..) => 204,
+    }
+}
+fn rmsg(code: u8) -> RMsg {
+    match code {
+        201 => register::RegisterMsg::Put(7, 'v'),
+        202 => register::RegisterMsg::Get(7),
+        203 => register::RegisterMsg::PutOk(7),
+        204 => register::RegisterMsg::GetOk(7, 'v'),
+        x => register::RegisterMsg::Internal(x),
+    }
+}
+fn wcode(m: &WMsg) -> u8 {
+    match m {
+        write_once_register::WORegisterMsg::Internal(x) => *x,
+        write_once_register::WORegisterMsg::Put(..) => 201,
+        write_once_register::WORegisterMsg::Get(..) => 202,
+        write_once_register::WORegisterMsg::PutOk(..) => 203,
+        write_once_register::WORegisterMsg::GetOk(..) => 204,
+        write_once_register::WORegisterMsg::PutFail(..) => 205,
+    }
+}
+fn wmsg(code: u8) -> WMsg {
+    match code {
+        201 => write_once_register::WORegisterMsg::Put(7, 'v'),
+        202 => write_once_register::WORegisterMsg::Get(7),
+        203 => write_once_register::WORegisterMsg::PutOk(7),
+        204 => write_once_register::WORegisterMsg::GetOk(7, 'v'),
+        205 => write_once_register::WORegisterMsg::PutFail(7),
+        x => write_once_register::WORegisterMsg::Internal(x),
+    }
+}
 
 // ------------------------------------------------------------------------------------------------
 // Per-call transparency
@@ -101,6 +138,8 @@ struct Adapter<W: Actor> {
     wrap_state: fn(u8) -> W::State,
     unwrap_state: fn(&W::State) -> u8,
     msg: fn(u8) -> W::Msg,
+    /// further incoming messages (Tab message values) beyond the plain one: the adapter's own protocol messages
+    extra_msgs: &'static [u8],
     /// renders Out<W> like Out<Tab> would be rendered for the same commands
     norm: fn(&Out<W>) -> String,
 }
@@ -155,7 +194,10 @@ fn through<W: Actor<Timer = u8, Random = u8>>(ad: &Adapter<W>, tab: &Tab, local:
 }
 
 fn per_call<W: Actor<Timer = u8, Random = u8>>(ad: &Adapter<W>, menu: &[Output], shared: &SharedReport) {
-    let events = [Ev::Start, Ev::Msg(0, 1), Ev::Timeout(1), Ev::Random(1)];
+    let mut events = vec![Ev::Start, Ev::Msg(0, 1), Ev::Timeout(1), Ev::Random(1)];
+    for m in ad.extra_msgs {
+        events.push(Ev::Msg(2, *m));
+    }
     for ev in &events {
         for out in menu {
             if *ev == Ev::Start && !matches!(out.st, StOp::Set(_)) {
@@ -232,12 +274,12 @@ fn norm_w(o: &Out<write_once_register::WORegisterActor<WTab>>) -> String {
 
 fn adapters_run(shared: &SharedReport, menu: &[Output], which: usize) {
     match which {
-        0 => per_call(&Adapter::<C1> { name: "choice1", mk: |t| Choice::new(t), wrap_state: |s| Choice::new(s), unwrap_state: |s| *s.get(), msg: |m| m, norm: norm_u8 }, menu, shared),
-        1 => per_call(&Adapter::<C2> { name: "choice2-left", mk: |t| Choice::L(t), wrap_state: |s| Choice::L(s), unwrap_state: |s| match s { Choice::L(x) => *x, Choice::R(x) => *x.get() }, msg: |m| m, norm: norm_u8 }, menu, shared),
-        2 => per_call(&Adapter::<C2> { name: "choice2-right", mk: |t| Choice::R(Choice::new(t)), wrap_state: |s| Choice::R(Choice::new(s)), unwrap_state: |s| match s { Choice::L(x) => *x, Choice::R(x) => *x.get() }, msg: |m| m, norm: norm_u8 }, menu, shared),
-        3 => per_call(&Adapter::<C3> { name: "choice3-pos0", mk: |t| Choice::L(t), wrap_state: |s| Choice::L(s), unwrap_state: unwrap3, msg: |m| m, norm: norm_u8 }, menu, shared),
-        4 => per_call(&Adapter::<C3> { name: "choice3-pos1", mk: |t| Choice::R(Choice::L(t)), wrap_state: |s| Choice::R(Choice::L(s)), unwrap_state: unwrap3, msg: |m| m, norm: norm_u8 }, menu, shared),
-        5 => per_call(&Adapter::<C3> { name: "choice3-pos2", mk: |t| Choice::R(Choice::R(Choice::new(t))), wrap_state: |s| Choice::R(Choice::R(Choice::new(s))), unwrap_state: unwrap3, msg: |m| m, norm: norm_u8 }, menu, shared),
+        0 => per_call(&Adapter::<C1> { name: "choice1", mk: |t| Choice::new(t), wrap_state: |s| Choice::new(s), unwrap_state: |s| *s.get(), msg: |m| m, extra_msgs: &[], norm: norm_u8 }, menu, shared),
+        1 => per_call(&Adapter::<C2> { name: "choice2-left", mk: |t| Choice::L(t), wrap_state: |s| Choice::L(s), unwrap_state: |s| match s { Choice::L(x) => *x, Choice::R(x) => *x.get() }, msg: |m| m, extra_msgs: &[], norm: norm_u8 }, menu, shared),
+        2 => per_call(&Adapter::<C2> { name: "choice2-right", mk: |t| Choice::R(Choice::new(t)), wrap_state: |s| Choice::R(Choice::new(s)), unwrap_state: |s| match s { Choice::L(x) => *x, Choice::R(x) => *x.get() }, msg: |m| m, extra_msgs: &[], norm: norm_u8 }, menu, shared),
+        3 => per_call(&Adapter::<C3> { name: "choice3-pos0", mk: |t| Choice::L(t), wrap_state: |s| Choice::L(s), unwrap_state: unwrap3, msg: |m| m, extra_msgs: &[], norm: norm_u8 }, menu, shared),
+        4 => per_call(&Adapter::<C3> { name: "choice3-pos1", mk: |t| Choice::R(Choice::L(t)), wrap_state: |s| Choice::R(Choice::L(s)), unwrap_state: unwrap3, msg: |m| m, extra_msgs: &[], norm: norm_u8 }, menu, shared),
+        5 => per_call(&Adapter::<C3> { name: "choice3-pos2", mk: |t| Choice::R(Choice::R(Choice::new(t))), wrap_state: |s| Choice::R(Choice::R(Choice::new(s))), unwrap_state: unwrap3, msg: |m| m, extra_msgs: &[], norm: norm_u8 }, menu, shared),
         6 => per_call(
             &Adapter::<register::RegisterActor<RTab>> {
                 name: "register-server",
@@ -247,7 +289,8 @@ fn adapters_run(shared: &SharedReport, menu: &[Output], which: usize) {
                     register::RegisterActorState::Server(x) => *x,
                     _ => 255,
                 },
-                msg: |m| register::RegisterMsg::Internal(m),
+                msg: rmsg,
+                extra_msgs: &[201, 202, 203, 204],
                 norm: norm_r,
             },
             menu,
@@ -262,7 +305,8 @@ fn adapters_run(shared: &SharedReport, menu: &[Output], which: usize) {
                     write_once_register::WORegisterActorState::Server(x) => *x,
                     _ => 255,
                 },
-                msg: |m| write_once_register::WORegisterMsg::Internal(m),
+                msg: wmsg,
+                extra_msgs: &[201, 202, 203, 204, 205],
                 norm: norm_w,
             },
             menu,
